@@ -95,6 +95,11 @@ def run(rep, tier):
                 rep.fail("C10.dep", ki, ir.where(call.inst), "argument depends on %s, expected {c%d, lo%d, hi%d}: %s" % (
                     sorted(ir.show(a) for a in at), k, k, k, ir.show(t, names)))
                 continue
+            arith = []
+            ir.walk(t, lambda x: arith.append(x) if x[0] in ('cast', 'op') else None)
+            if arith:
+                rep.fail("C10.dep", ki, ir.where(call.inst), "the coordinate is converted or computed with on its way to the backend (clamping may only compare and select): %s" % ir.show(arith[0], names)[:120])
+                continue
             rep.ok("C10.dep", ki)
             bad_pred = set()
             for r in orders:
@@ -104,8 +109,11 @@ def run(rep, tier):
                 ev = ir.OrdEval(rank, kind)
                 v = ev.value(t)
                 oi = "%s c,lo,hi ranks=%s" % (ki, r)
-                if v is None or v not in rank:
+                if v is None:
                     raise AnalysisBroken("C10 %s: argument is not a comparison/select tree over its atoms: %s" % (ki, ir.show(t, names)))
+                if v not in rank:
+                    rep.fail("C10.ord", ki, ir.where(call.inst), "for ordering ranks(c,lo,hi)=%s the backend is queried at %s, which is none of c, lo, hi" % (r, ir.show(v, names)[:80]), {"ordering": r})
+                    break
                 bad_pred |= set(ev.bad_pred)
                 if rank[v] != expected_clamp(rank, c, lo, hi):
                     rep.fail("C10.ord", ki, ir.where(call.inst), "for ordering ranks(c,lo,hi)=%s the backend is queried at %s instead of the clamp; argument = %s" % (
